@@ -17,6 +17,12 @@ package main
 //                  failing pieces keep what ran before the failure, whole = concatenation).
 //   Fragments    : the real instructions each accepted piece added are sent to C04's verified
 //                  checker (position independent, ends with exactly one value).
+//   Host globals : the names the host supplies (risor.Config: builtins, default modules) are variables
+//                  defined before the first piece (Model.lean `Repl.init host`).  Histories REBIND them at
+//                  top level (`len = func(v) {...}`, `math = 7`, `import math as len`, ...) and read them in
+//                  later pieces; after EVERY piece the value of EVERY host-supplied name (vm.Get) is compared
+//                  with the whole-program evaluation of the statements executed so far, next to the user's
+//                  globals: what one run leaves in a global is what the next run finds there.
 
 import (
 	"bytes"
@@ -105,6 +111,33 @@ type c18Env struct {
 	whole  map[string]*c18Obs
 	frags  map[string]string
 	names  []string
+	// the globals the host supplies (risor.Config): sorted names, the objects handed to every VM, their kind
+	host     []string
+	hostVal  map[string]object.Object
+	hostKind map[string]string // builtin | module | other
+	hostSet  map[string]bool
+}
+
+func c18NewEnv(setsIP bool) *c18Env {
+	env := &c18Env{cfg: risor.NewConfig(), setsIP: setsIP, whole: map[string]*c18Obs{}, frags: map[string]string{},
+		hostVal: map[string]object.Object{}, hostKind: map[string]string{}, hostSet: map[string]bool{}}
+	g := env.cfg.Globals()
+	env.host = env.cfg.GlobalNames()
+	sort.Strings(env.host)
+	for _, n := range env.host {
+		env.hostSet[n] = true
+		env.hostKind[n] = "other"
+		if o, ok := g[n].(object.Object); ok {
+			env.hostVal[n] = o
+			switch o.(type) {
+			case *object.Builtin:
+				env.hostKind[n] = "builtin"
+			case *object.Module:
+				env.hostKind[n] = "module"
+			}
+		}
+	}
+	return env
 }
 
 type c18Obs struct {
@@ -132,14 +165,31 @@ func c18Inspect(o object.Object) (s string) {
 	return o.Inspect()
 }
 
-func c18Globals(v *vm.VirtualMachine, names []string) map[string]string {
+// globals reads the user's globals `names` and EVERY host-supplied global of a stopped VM.  A user
+// global that is undefined, never stored or nil is left out; a host-supplied global is left out as long
+// as it still holds the very object the host supplied, and recorded (also when nil) once it was rebound.
+func (env *c18Env) globals(v *vm.VirtualMachine, names []string) map[string]string {
 	m := map[string]string{}
 	if v == nil {
 		return m
 	}
 	for _, n := range names {
+		if env.hostSet[n] {
+			continue
+		}
 		o, err := v.Get(n)
 		if err == nil && o != nil && o != object.Nil { // a declared but never stored slot reads as nil
+			m[n] = c18Inspect(o)
+		}
+	}
+	for _, n := range env.host {
+		o, err := v.Get(n)
+		switch {
+		case err != nil:
+			m[n] = "<no such global>"
+		case o == nil:
+			m[n] = "<empty slot>"
+		case o != env.hostVal[n]:
 			m[n] = c18Inspect(o)
 		}
 	}
@@ -237,7 +287,7 @@ func (env *c18Env) incremental(pieces []string, names []string, globalsEvery boo
 			o.SP, o.IP = st.SP, st.IP
 		}
 		if globalsEvery || i == len(pieces)-1 {
-			o.Globals = c18Globals(v, names)
+			o.Globals = env.globals(v, names)
 		}
 		out = append(out, o)
 	}
@@ -279,7 +329,7 @@ func (env *c18Env) wholeEval(src string) *c18Obs {
 		}
 		v := vm.New(code, env.cfg.VMOpts()...)
 		err = v.Run(ctx)
-		o.Globals = c18Globals(v, env.names)
+		o.Globals = env.globals(v, env.names)
 		if err != nil {
 			o.Class, o.Err = "fail", err.Error()
 			return
@@ -553,7 +603,8 @@ var c18Finding = map[string]string{
 type c18History struct {
 	Pieces []*c18Piece
 	Names  []string
-	Light  bool // long directed history: compare classes/registers only, values at the end
+	Host   []string // host-supplied globals the statements' attributes mention: defined before the first piece
+	Light  bool     // long directed history: compare classes/registers only, values at the end
 }
 
 func (h *c18History) Text() string {
@@ -578,9 +629,10 @@ func c18List(xs []string, num map[string]int) string {
 	return strings.Join(parts, ".")
 }
 
-// request renders the history for the oracle; ids[i] = statement with id i+1.
-func (h *c18History) request() (string, []*c18Stmt) {
+// request renders the history for the oracle (host names, pieces); ids[i] = statement with id i+1.
+func (h *c18History) request() (string, string, []*c18Stmt) {
 	num := map[string]int{}
+	host := c18List(h.Host, num)
 	var ids []*c18Stmt
 	var ps []string
 	for _, p := range h.Pieces {
@@ -612,7 +664,7 @@ func (h *c18History) request() (string, []*c18Stmt) {
 		}
 		ps = append(ps, strings.Join(ss, ";"))
 	}
-	return strings.Join(ps, "|"), ids
+	return host, strings.Join(ps, "|"), ids
 }
 
 type c18Entry struct {
@@ -742,9 +794,18 @@ func (h *c18History) compare(env *c18Env, real []*c18Obs, pr *c18Pred, ids []*c1
 		}
 		if r.Globals != nil {
 			for _, n := range h.Names {
+				if env.hostSet[n] {
+					continue
+				}
 				a, b := r.Globals[n], E.Globals[n]
 				if a != b {
 					return fmt.Sprintf("piece %d: global %s = %s, whole-program evaluation gives %s", i, n, c18_orUndef(a), c18_orUndef(b))
+				}
+			}
+			for _, n := range env.host {
+				a, b := r.Globals[n], E.Globals[n]
+				if a != b {
+					return fmt.Sprintf("piece %d: host-supplied global %s (%s) = %s, whole-program evaluation gives %s", i, n, env.hostKind[n], c18_orHost(a), c18_orHost(b))
 				}
 			}
 		}
@@ -755,6 +816,13 @@ func (h *c18History) compare(env *c18Env, real []*c18Obs, pr *c18Pred, ids []*c1
 func c18_firstLine(s string) string {
 	if i := strings.Index(s, "\n"); i >= 0 {
 		return s[:i]
+	}
+	return s
+}
+
+func c18_orHost(s string) string {
+	if s == "" {
+		return "<the host's value>"
 	}
 	return s
 }
@@ -785,8 +853,8 @@ func (h *c18History) check(e *Env, env *c18Env, checkFrags bool) {
 			}
 		}
 	}
-	req, ids := h.request()
-	rep := strings.Split(e.O.Ask("C18", "hist", req), "\t")
+	hostReq, req, ids := h.request()
+	rep := strings.Split(e.O.Ask("C18", "histh", hostReq, req), "\t")
 	if len(rep) != 8 || rep[0] != "ok" {
 		e.R.Mismatch(text, "-", strings.Join(rep, " "), "oracle did not answer the history request")
 		return
@@ -954,15 +1022,28 @@ func c18_runC18(e *Env) {
 		"top-level statement boundaries (quick: every partition into <= 4 pieces; thorough: also random partitions into any number of pieces), " +
 		"either clean or with inserted pieces: PX syntax error, RU undefined name, RC constant reassignment, FA/FP/FL run-time error (alone / " +
 		"between prints / under a pending operand) at EVERY position, RL `print; undefined`, RP `1 + undefined`, RD `zr := 5; undefined` + later use, " +
-		"RF `func f() { undefined }`, FD `zd := [1][5]` + later use at one position, and a random mix; plus directed histories (1030 one-expression " +
-		"pieces, function-reads-global across pieces). Distinct by the history text; non-trivial when the history has >= 2 pieces and the program " +
+		"RF `func f() { undefined }`, FD `zd := [1][5]` + later use at one position, and a random mix; every third program additionally gets " +
+		"top-level statements that REBIND 1-2 host-supplied globals (any builtin or default module of risor.Config except print/len; to an int, " +
+		"string, list, nil, function or another host value, at top level or inside a named function) and read/call them later, directly or " +
+		"through a named function; plus directed " +
+		"histories (for EVERY host-supplied global: rebind / read across 2-4 pieces with failing, rejected and unrelated pieces in between, " +
+		"rebinding twice, to nil/false, by multiple and compound assignment, by `import m as name`, from inside a function, read through an earlier function; every " +
+		"falsy value in a user's global; 1030 one-expression pieces; function-reads-global across pieces). After every piece every user global " +
+		"AND every host-supplied global (vm.Get) is compared with the whole-program evaluation. Distinct by the history text; non-trivial when the history has >= 2 pieces and the program " +
 		"uses >= 3 statement/expression forms beyond literals or nests >= 3 deep, and it gets past parsing"
 	setsIP, found := c18ReplSetsIP()
 	if !found {
 		e.R.Mismatch("cmd/risor/repl/repl.go", "no `if err := v.Run(ctx); err != nil` found in getEvaluator", "Parse; Compile; Run; SetIP(end) on error; TOS", "REPL protocol")
 	}
 	e.R.H("repl_protocol", fmt.Sprintf("SetIP(code.InstructionCount()) after a run-time error: %v", setsIP))
-	env := &c18Env{cfg: risor.NewConfig(), setsIP: setsIP, whole: map[string]*c18Obs{}, frags: map[string]string{}}
+	env := c18NewEnv(setsIP)
+	for _, n := range env.host {
+		e.R.H("host_supplied_globals", env.hostKind[n])
+	}
+	// the smallest histories first: they make the most readable replay
+	if os.Getenv("C18_SKIP_DIRECTED_HOST") == "" { // debugging aid: look at what the generated histories find on their own
+		c18DirectedHost(e, env)
+	}
 
 	nProg, maxParts := 150, 48
 	if !e.Quick {
@@ -971,6 +1052,13 @@ func c18_runC18(e *Env) {
 	rng := e.Rng.Fork()
 	uniq := 0
 	t0 := time.Now()
+	// host-supplied names the woven programs rebind: all but the two the generator and the inserted pieces call
+	var hostPool []string
+	for _, n := range env.host {
+		if n != "print" && n != "len" {
+			hostPool = append(hostPool, n)
+		}
+	}
 	for pi := 0; pi < nProg; pi++ {
 		r := rng.Fork()
 		if os.Getenv("C18_PROGRESS") != "" {
@@ -985,6 +1073,9 @@ func c18_runC18(e *Env) {
 		p := GenProgram(r, o)
 		if pi%5 == 4 {
 			p = c18FnHeavy(r)
+		}
+		if pi%3 == 1 {
+			p = c18HostWeave(r, p, hostPool)
 		}
 		if only := os.Getenv("C18_ONLY"); only != "" && only != strconv.Itoa(pi) {
 			continue
@@ -1017,6 +1108,11 @@ func c18_runC18(e *Env) {
 			}
 		}
 		G := c18TopNames(top)
+		// host-supplied names the program rebinds are globals like the declared ones (defined from the start)
+		hostUsed := c18HostAssigned(top, env.hostSet)
+		for _, hn := range hostUsed {
+			G[hn] = true
+		}
 		sens := c18Sensitive(top, G)
 		var stmts []*c18Stmt
 		for i, nd := range top {
@@ -1041,6 +1137,12 @@ func c18_runC18(e *Env) {
 			e.R.H("constructs", k)
 		}
 		e.R.H("top_level_statements", fmt.Sprintf("%02d", len(stmts)))
+		if len(hostUsed) > 0 {
+			e.R.H("programs", "rebinding host-supplied globals")
+			for _, hn := range hostUsed {
+				e.R.H("host_globals_rebound", env.hostKind[hn]+" (generated program)")
+			}
+		}
 		if len(sens) > 0 {
 			e.R.H("programs", "with a function that reads or writes a reassigned global")
 		} else {
@@ -1083,7 +1185,7 @@ func c18_runC18(e *Env) {
 						}
 					}
 				}
-				h := &c18History{Pieces: ps, Names: append(append([]string{}, names...), extra...)}
+				h := &c18History{Pieces: ps, Names: append(append([]string{}, names...), extra...), Host: hostUsed}
 				e.R.Case(h.Text(), nontrivialProg && len(ps) >= 2 && w.Class != "parse")
 				e.R.H("history_kind", tag)
 				h.check(e, env, frags)
@@ -1124,6 +1226,125 @@ func c18_runC18(e *Env) {
 		return !ka && kb
 	})
 	e.R.Note("whole-program reference evaluations cached: %d; fragment checks: %d distinct fragments", len(env.whole), len(env.frags))
+}
+
+// c18HostAssigned lists (sorted) the host-supplied names a program assigns to.
+func c18HostAssigned(stmts []*N, host map[string]bool) []string {
+	seen := map[string]bool{}
+	for _, nd := range stmts {
+		Walk(nd, func(x *N, _ []*N) {
+			if t := c18AssignTarget(x); t != "" && host[t] {
+				seen[t] = true
+			}
+		}, nil)
+	}
+	return sortedKeys(seen)
+}
+
+// c18HostWeave adds top-level statements to a generated program that REBIND host-supplied globals
+// (to an int, a string, a list, nil, a function, another host-supplied value) and READ them later (as an
+// expression statement, into a fresh variable, by calling them, through a named function defined before
+// or after the rebinding).  The statements of one name keep their order; where they land between the
+// program's own statements is random, so the partitions put rebinding and reads into the same piece,
+// into adjacent pieces and into pieces further apart.
+func c18HostWeave(r *RNG, p *N, pool []string) *N {
+	type ins struct {
+		pos, ord int
+		node     *N
+	}
+	var all []ins
+	used := map[string]bool{}
+	k := 1 + r.Intn(2)
+	fresh := 0
+	for i := 0; i < k; i++ {
+		H := Pick(r, pool)
+		if used[H] {
+			continue
+		}
+		used[H] = true
+		isFunc := false
+		value := func() *N {
+			isFunc = false
+			switch r.Intn(7) {
+			case 0:
+				return nInt(int64(r.Intn(50)))
+			case 1:
+				return nStr("h" + strconv.Itoa(r.Intn(9)))
+			case 2, 3:
+				isFunc = true
+				return ns("func", "", n("params", ns("param", "hp")), nBlock(n("return", nInfix("+", nId("hp"), nInt(int64(1+r.Intn(9)))))))
+			case 4:
+				return n("nil")
+			case 5:
+				return n("list", nInt(int64(r.Intn(5))), nInt(2))
+			}
+			return nId(Pick(r, pool))
+		}
+		set := func() *N { return nAssign(H, "=", value()) }
+		read := func() *N {
+			fresh++
+			name := fmt.Sprintf("hr%d_%d", i, fresh)
+			switch r.Intn(4) {
+			case 0:
+				return n("expr", nId(H))
+			case 1:
+				return nVar(name, nId(H))
+			case 2:
+				if isFunc {
+					return n("expr", nCall(nId(H), nInt(int64(r.Intn(5)))))
+				}
+				return n("expr", n("list", nId(H), nInt(1)))
+			}
+			if isFunc {
+				return nVar(name, nCall(nId(H), nInt(2)))
+			}
+			return nVar(name, n("list", nId(H)))
+		}
+		fname := fmt.Sprintf("hf%d", i)
+		fdef := func() *N { return n("expr", ns("func", fname, n("params"), nBlock(n("return", nId(H))))) }
+		fcall := func() *N { return n("expr", nCall(nId(fname))) }
+		sname := fmt.Sprintf("hs%d", i)
+		sdef := func() *N { return n("expr", ns("func", sname, n("params"), nBlock(nAssign(H, "=", nInt(int64(60+r.Intn(9))))))) }
+		scall := func() *N { return n("expr", nCall(nId(sname))) }
+		var seq []*N
+		switch r.Intn(7) {
+		case 0:
+			seq = []*N{set(), read(), read()}
+		case 1:
+			seq = []*N{set(), read(), set(), read()}
+		case 2:
+			seq = []*N{fdef(), set(), fcall(), read()}
+		case 3:
+			seq = []*N{set(), fdef(), fcall()}
+		case 4:
+			seq = []*N{read(), set(), read()}
+		case 5:
+			seq = []*N{sdef(), scall(), read()}
+		default:
+			seq = []*N{set(), read()}
+		}
+		pos := make([]int, len(seq))
+		for j := range pos {
+			pos[j] = r.Intn(len(p.C) + 1)
+		}
+		sort.Ints(pos)
+		for j, nd := range seq {
+			all = append(all, ins{pos[j], len(all), nd})
+		}
+	}
+	sort.SliceStable(all, func(a, b int) bool { return all[a].pos < all[b].pos })
+	var out []*N
+	next := 0
+	for i := 0; i <= len(p.C); i++ {
+		for next < len(all) && all[next].pos == i {
+			out = append(out, all[next].node)
+			next++
+		}
+		if i < len(p.C) {
+			out = append(out, p.C[i])
+		}
+	}
+	return n("prog", out...)
 }
 
 // c18FnHeavy builds a small program around global variables and functions that read or write them
@@ -1185,6 +1406,97 @@ func c18FnHeavy(r *RNG) *N {
 	}
 	stmts = append(stmts, n("expr", n("list", nId(ga), nId(gb))))
 	return n("prog", stmts...)
+}
+
+// ---------------------------------------------------------------- directed histories: host-supplied globals
+
+// c18DirectedHost: for EVERY global the host supplies (builtins and default modules of risor.Config) the
+// histories that rebind it at top level in one piece and look at it from later pieces: the rebinding must be
+// carried from run to run like any other global (the whole program never reloads, the REPL reloads the main
+// code before every run but the first).  Plus: a user's global holding each falsy value.
+func c18DirectedHost(e *Env, env *c18Env) {
+	mk := func(src string, f func(*c18Stmt)) *c18Stmt {
+		s := &c18Stmt{Src: src, Kind: "directed", Need: 1}
+		if f != nil {
+			f(s)
+		}
+		return s
+	}
+	piece := func(ss ...*c18Stmt) *c18Piece { return &c18Piece{Stmts: ss, Kind: "directed"} }
+	uniq := 900000
+	for _, N := range env.host {
+		N := N
+		run := func(tag string, extraNames []string, ps ...*c18Piece) {
+			h := &c18History{Pieces: ps, Names: extraNames, Host: []string{N}}
+			e.R.Case(h.Text(), true)
+			e.R.H("history_kind", "directed host global: "+tag)
+			e.R.H("host_globals_rebound", env.hostKind[N]+" (directed)")
+			h.check(e, env, false)
+		}
+		set := func(val string) *c18Stmt {
+			return mk(N+" = "+val, func(s *c18Stmt) { s.Uses, s.Asg = []string{N}, []string{N} })
+		}
+		read := func() *c18Stmt {
+			return mk(N, func(s *c18Stmt) { s.IsExpr, s.Leaves, s.Uses = true, true, []string{N} })
+		}
+		use := func(src string, names ...string) *c18Stmt {
+			return mk(src, func(s *c18Stmt) { s.IsExpr, s.Leaves, s.Uses = true, true, names })
+		}
+		decl := func(name, val string, uses ...string) *c18Stmt {
+			return mk(name+" := "+val, func(s *c18Stmt) { s.VDecl, s.Uses = []string{name}, uses })
+		}
+		ins := func(kind string) *c18Piece { uniq++; return c18Ins(kind, uniq)[0] }
+		run("rebind / read", nil, piece(set("7")), piece(read()))
+		run("rebind to a function / call it into a variable / read the variable", []string{"zn"},
+			piece(set("func(v) { return 42 }")), piece(decl("zn", N+"([3, 1, 2])", N)), piece(use("zn", "zn")))
+		run("rebind / failing piece / read", nil, piece(set("7")), ins("FA"), piece(read()))
+		run("rebind / rejected piece / read", nil, piece(set("7")), ins("RU"), piece(read()))
+		run("rebind / syntax error / read", nil, piece(set("7")), ins("PX"), piece(read()))
+		run("rebind / rebind / read", nil, piece(set("7")), piece(set(`"eight"`)), piece(read()))
+		run("rebind to nil / read", nil, piece(set("nil")), piece(read()))
+		run("rebind to false / unrelated piece / read", []string{"zq"}, piece(set("false")), piece(decl("zq", "1")), piece(read()))
+		run("keep the host's value in a variable / rebind / read both", []string{"zo"},
+			piece(decl("zo", N, N)), piece(set("[1, 2]")), piece(use("zo", "zo")), piece(read()))
+		run("rebind and read in one piece / read", nil, piece(set("7"), read()), piece(read()))
+		run("rebind then fail in one piece / read", nil,
+			piece(set("7"), mk("[1][5]", func(s *c18Stmt) { s.IsExpr, s.Leaves, s.Fails, s.AtomicFail, s.Need = true, true, true, true, 3 })), piece(read()))
+		run("multiple assignment / read", []string{"zm"}, piece(decl("zm", "0")),
+			piece(mk(N+", zm = [1, 2]", func(s *c18Stmt) { s.Uses, s.Asg = []string{N, "zm"}, []string{N, "zm"} })),
+			piece(use("["+N+", zm]", N, "zm")))
+		run("compound rebinding across pieces", nil, piece(set("1")),
+			piece(mk(N+" += 1", func(s *c18Stmt) { s.Uses, s.Asg = []string{N}, []string{N} })),
+			piece(mk(N+"++", func(s *c18Stmt) { s.Uses, s.Asg = []string{N}, []string{N} })), piece(read()))
+		other := "strings"
+		if N == other {
+			other = "math"
+		}
+		run("import as the host-supplied name / read", nil,
+			piece(mk("import "+other+" as "+N, func(s *c18Stmt) { s.Uses, s.Asg = []string{N}, []string{N} })), piece(read()))
+		run("a function rebinds the name, called in the piece that defines it / read", []string{"zs"},
+			piece(mk("func zs() { "+N+" = 9 }", func(s *c18Stmt) {
+				s.Leaves, s.Uses, s.Asg, s.CDecl, s.FDefs = true, []string{N}, []string{N}, []string{"zs"}, []string{"zs"}
+			}), mk("zs()", func(s *c18Stmt) { s.IsExpr, s.Leaves, s.Uses, s.Calls = true, true, []string{"zs"}, []string{"zs"} })),
+			piece(read()))
+		// a function loaded by an earlier run keeps that run's copy of the globals (known finding), host-supplied or not
+		run("function reads the name rebound by a later piece", []string{"zh"},
+			piece(mk("func zh() { return "+N+" }", func(s *c18Stmt) {
+				s.Leaves, s.Uses, s.CDecl, s.FDefs = true, []string{N}, []string{"zh"}, []string{"zh"}
+			})),
+			piece(set("7")),
+			piece(mk("zh()", func(s *c18Stmt) { s.IsExpr, s.Leaves, s.Uses, s.Calls = true, true, []string{"zh"}, []string{"zh"} })),
+			piece(read()))
+	}
+	// every falsy value in a user's global survives the reload as well
+	for _, val := range []string{"nil", "false", "0", `""`, "[]", "{}", "0.0"} {
+		h := &c18History{Names: []string{"zx"}, Pieces: []*c18Piece{
+			piece(mk("zx := 5", func(s *c18Stmt) { s.VDecl = []string{"zx"} })),
+			piece(mk("zx = "+val, func(s *c18Stmt) { s.Uses, s.Asg = []string{"zx"}, []string{"zx"} })),
+			piece(mk("zx == "+val, func(s *c18Stmt) { s.IsExpr, s.Leaves, s.Uses = true, true, []string{"zx"} })),
+			piece(mk("zx", func(s *c18Stmt) { s.IsExpr, s.Leaves, s.Uses = true, true, []string{"zx"} }))}}
+		e.R.Case(h.Text(), true)
+		e.R.H("history_kind", "directed: falsy value in a user's global")
+		h.check(e, env, false)
+	}
 }
 
 // ---------------------------------------------------------------- directed histories
